@@ -39,6 +39,7 @@ trap 'git -C /repo checkout -- .; git -C /verif checkout -- evidence 2>/dev/null
 git -C /repo apply "$D/patch.diff" || { echo "patch does not apply to /repo"; exit 3; }
 for c in $CHECKS; do
   s=$(date +%s); out=$(/verif/check $c quick 2>&1); rc=$?; e=$(date +%s)
+  git -C /repo diff --quiet && echo "   WARNING: /repo no longer carries the patch after this check (something reverted it): the result below is void"
   echo "   $c rc=$rc $((e-s))s $(echo "$out" | grep -a -E "^VIOLATION|^INCONCLUSIVE" | head -2 | cut -c1-200)"
   echo "$out" | grep -a -A6 "^--- failure" | head -12 | cut -c1-300 | sed 's/^/      /'
 done
